@@ -19,8 +19,21 @@ Proved here, for ALL states, files, error maps:
  * `stale_extra` (finding K2): a list that differs only in related information is not re-published.
 -/
 import LuaHelper.Model.Diag
+import LuaHelper.Gen.Shapes
 namespace LuaHelper.C08
 open LuaHelper.Diag
+
+/-- the handler sequences the model's `ev*` functions are written after, as they stand in /repo now
+    (regenerated on every run): which bookkeeping methods each document / file handler calls, in order.
+    didClose restores the saved diagnostics with SaveOneFilePushAgain (repair aa13bc7). -/
+theorem handler_call_shape :
+    Gen.bookkeepingCalls =
+      [("TextDocumentDidOpen", ["pushAllDiagnosticsAgain", "ClearChangeFileErr"]),
+       ("TextDocumentDidChange", ["InsertChangeFileErr", "ClearChangeFileErr", "ClearFileSyntaxErr"]),
+       ("WorkspaceChangeWatchedFiles", ["ClearChangeFileErr", "pushAllDiagnosticsAgain"]),
+       ("TextDocumentDidClose", ["SaveOneFilePushAgain", "ClearOneFileDiagnostic", "RemoveFile"]),
+       ("TextDocumentDidSave", ["SaveOneFilePushAgain", "pushAllDiagnosticsAgain", "SaveOneFilePushAgain"])] := by decide
+#print axioms handler_call_shape
 
 /-! ### association-list facts -/
 
